@@ -63,6 +63,16 @@ def run(prop, tier):
             for c in (CFGS if not quick else [CFGS[_ % len(CFGS)]]):
                 jobs.append({"chain": tree, "cfg": c, "steps": plan})
                 jobs.append({"chain": tree, "cfg": c, "steps": plan2})
+        # a function that returns, unchanged, the partition it got from another function (first-call object, cache hit, read back)
+        for _ in range(10 if quick else 150):
+            n = r.choice([3, 4])
+            ch = [{"own": sorted(r.sample([1, 2, 3], r.randint(1, 3))), "kind": r.choice(["mem", "disk"]), "nul": []} for _ in range(n)]
+            k = r.randint(2, n)
+            ch[k - 1] = {"own": [], "kind": "pass", "nul": []}
+            for pi, plan in enumerate(step_plans(n)):
+                if quick and (_ + pi) % 2:
+                    continue
+                jobs.append({"chain": ch, "cfg": CFGS[(_ + pi) % len(CFGS)], "steps": plan})
         for i, ch in enumerate(chains):
             plans = step_plans(len(ch))
             for pi, plan in enumerate(plans):
